@@ -5,7 +5,7 @@
    lists.  C : cfg holds the universe of SKIs, the SKI order and the table regenerated
    from hub/*.go (which places consult the shut-down flag); theorems hold for every C
    unless they name the table. *)
-From Ship Require Import Base HubModel HubModelProofs.
+From Ship Require Import Base HubModel HubModelProofs HubWindowProofs.
 From ShipGen Require Import StateTable HubTable.
 
 (* (a) in every hub state: a websocket dial to k starts only in the step "the pending dial
@@ -68,9 +68,7 @@ Theorem C10_no_dial_after_unregister :
     (forall l, In l ls -> regrants l k = false) ->
     let r := hrun C (fst (hstep C h (LUnregister k))) ls in
     ~ In k (dials_of (snd r)) /\ may_dial (get (fst r) k) = false.
-Proof.
-  intros C h k ls G. apply no_grant_no_dial; [apply unregister_effect|exact G].
-Qed.
+Proof. exact no_dial_after_unregister. Qed.
 Print Assumptions C10_no_dial_after_unregister.
 
 (* (b) REFUTED in one region (finding client_connection_completed_after_unregister): a dial
@@ -83,6 +81,16 @@ Theorem C10_unregister_window_refuted :
   /\ window_free window_cfg (hub0 true) window_run = false.
 Proof. exact window_witness. Qed.
 Print Assumptions C10_unregister_window_refuted.
+
+(* (b) outside that region the statement holds, for every configuration and unbounded
+   label lists from a fresh hub: if the user never unregisters / cancels a SKI while a dial
+   to it is in flight (window_free), no client-role connection is ever created towards a
+   SKI the user unregistered (and not re-registered / re-trusted by a hello-ok report) *)
+Theorem C10_unregister_window_partial :
+  forall (C : cfg) (started : bool) (ls : list label),
+    window_free C (hub0 started) ls = true -> run_window C ghost0 (hub0 started) ls = [].
+Proof. exact window_partial_fresh. Qed.
+Print Assumptions C10_unregister_window_partial.
 
 (* (c) CancelPairingWithSKI(k), in any state: the registered connection (a pending request)
    gets AbortPendingHandshake, k is untrusted, its state None, its attempt counter gone *)
@@ -102,13 +110,13 @@ Print Assumptions C10_cancel_aborts_and_clears_trust.
 Theorem C10_no_dial_after_shutdown :
   forall (u : list N) (lgt : N -> bool) (h : hub) (ls : list label),
     dials_of (snd (hrun (with_table u lgt) (fst (hstep (with_table u lgt) h LShutdown)) ls)) = [].
-Proof. intros u lgt. exact (no_dial_after_shutdown (with_table u lgt) eq_refl eq_refl). Qed.
+Proof. exact no_dial_after_shutdown_table. Qed.
 Print Assumptions C10_no_dial_after_shutdown.
 
 (* (d) ... and a shut-down hub neither re-announces nor requests mDNS entries *)
 Theorem C10_no_reannounce_after_shutdown :
   forall (u : list N) (lgt : N -> bool) (h : hub), h_down h = true -> reannounce (with_table u lgt) h = [].
-Proof. intros u lgt h. exact (reannounce_down (with_table u lgt) h eq_refl). Qed.
+Proof. exact no_reannounce_after_shutdown_table. Qed.
 Print Assumptions C10_no_reannounce_after_shutdown.
 
 (* (d) no slack: a hub whose Shutdown sets no flag (the tree before the fix) dials after it *)
